@@ -751,6 +751,10 @@ pub struct BuildSpec {
     /// L1 table gets room (allocated clusters) for all needed entries even
     /// when the header lists fewer
     pub l1_room_full: bool,
+    /// fill free host clusters (refcount 0) inside the file, and this many
+    /// extra clusters behind its last used one, with stale junk data - what a
+    /// file that has seen allocations and frees looks like
+    pub junk_tail: u32,
 }
 
 #[derive(Clone, Debug)]
@@ -1131,6 +1135,17 @@ pub fn build(spec: &BuildSpec, rng: &mut Rng) -> Built {
     }
     file_len = end;
     img.truncate(file_len as usize);
+    if spec.junk_tail > 0 {
+        let total = file_len.div_ceil(cs) + spec.junk_tail as u64;
+        img.resize((total * cs) as usize, 0);
+        for cl in 1..total {
+            if !w.owners.contains_key(&cl) {
+                let junk = cluster_bytes(0x7f00_0000_0000 + cl * (cs / 512), cs);
+                img[(cl * cs) as usize..((cl + 1) * cs) as usize].copy_from_slice(&junk);
+            }
+        }
+        file_len = total * cs;
+    }
     Built {
         bytes: img,
         host_of,
